@@ -267,6 +267,9 @@ class JSObject:
         self._properties: Dict[str, JSValue] = {}
         self._getters: Dict[str, Any] = {}  # property name -> getter function
         self._setters: Dict[str, Any] = {}  # property name -> setter function
+        # Creation order of all own keys; only kept once the object has an
+        # accessor (until then the order is that of _properties itself)
+        self._key_order: Optional[Dict[str, None]] = None
         self._prototype = prototype
 
     def get(self, key: str) -> JSValue:
@@ -295,23 +298,33 @@ class JSObject:
 
     def define_getter(self, key: str, getter: Any) -> None:
         """Define a getter for a property (replaces a data property of that name)."""
+        self._track_key(key)
         self._properties.pop(key, None)
         self._getters[key] = getter
 
     def define_setter(self, key: str, setter: Any) -> None:
         """Define a setter for a property (replaces a data property of that name)."""
+        self._track_key(key)
         self._properties.pop(key, None)
         self._setters[key] = setter
+
+    def _track_key(self, key: str) -> None:
+        """Remember where an accessor key stands among the own keys."""
+        if self._key_order is None:
+            self._key_order = dict.fromkeys(self._properties)
+        self._key_order[key] = None
 
     def define_property(self, key: str, value: JSValue) -> None:
         """Define a data property (replaces an accessor of that name)."""
         self._getters.pop(key, None)
         self._setters.pop(key, None)
-        self._properties[key] = value
+        self.set(key, value)
 
     def set(self, key: str, value: JSValue) -> None:
         """Set a property value."""
         self._properties[key] = value
+        if self._key_order is not None:
+            self._key_order[key] = None
 
     def has(self, key: str) -> bool:
         """Check if object has own property."""
@@ -323,11 +336,22 @@ class JSObject:
         self._properties.pop(key, None)
         self._getters.pop(key, None)
         self._setters.pop(key, None)
+        if self._key_order is not None:
+            self._key_order.pop(key, None)
         return found
 
     def keys(self) -> List[str]:
-        """Get own enumerable property keys."""
-        return list(self._properties.keys())
+        """Get own enumerable property keys (data and accessor) in creation order."""
+        if self._key_order is None:
+            return list(self._properties.keys())
+        keys = [
+            k
+            for k in self._key_order
+            if k in self._properties or k in self._getters or k in self._setters
+        ]
+        if len(keys) < len(self._properties):  # written behind our back
+            keys.extend(k for k in self._properties if k not in self._key_order)
+        return keys
 
     def __repr__(self) -> str:
         return f"JSObject({self._properties})"
